@@ -87,11 +87,22 @@ impl Prop for C09 {
         ]
     }
     fn strategy(&self, _tier: Tier) -> BoxedStrategy<Case> {
-        (gen::recv_input(), gen::ctx_cfg(), prop_oneof![2 => Just(Vec::new()).boxed(), 1 => gen::prior_history(4)])
-            .prop_map(|(bytes, cfg, mut hist)| {
-                // receive flow: the length probe is called on the same bytes first
-                if bytes.len() % 4 == 1 {
-                    hist.push(Op::GetLength { bytes: bytes.clone() });
+        (gen::recv_input(), gen::ctx_cfg_maybe_no_vendor(), prop_oneof![2 => Just(Vec::new()).boxed(), 1 => gen::prior_history(4)], 0u8..16)
+            .prop_map(|(bytes, cfg, mut hist, k)| {
+                match k {
+                    // receive flow: the length probe is called on the same bytes first
+                    0 | 1 => hist.push(Op::GetLength { bytes: bytes.clone() }),
+                    // the very same packet was received just before (a retransmission)
+                    2 => hist.push(Op::Decode { bytes: bytes.clone() }),
+                    3 => hist.push(Op::Process { bytes: bytes.clone(), cap: 64, fill: 0 }),
+                    // ... or the same packet with other SOM / EOM / sequence / tag bits
+                    4 | 5 if bytes.len() >= 10 => {
+                        let mut b = bytes.clone();
+                        b[7] ^= if k == 4 { 0x40 } else { 0xC0 };
+                        crate::refmodel::fix_pec(&mut b);
+                        hist.push(Op::Decode { bytes: b });
+                    }
+                    _ => {}
                 }
                 Case { bytes, cfg, hist }
             })
